@@ -8,7 +8,6 @@
    node, visiting order of retain_*.                                         *)
 EXTENDS MGState
 
-VARIABLE pending      \* ghost: weights still to be visited by a running retain_* / map
 avars == <<nd, ed, dir, maxix, stamp, ret, pending>>
 
 N == Len(nd)
@@ -200,4 +199,6 @@ Spec == Init /\ [][Next]_avars
 \* every error / None / panic result leaves the graph unchanged
 ErrUnchanged == [][(ret'[1] \in {"err_s", "none", "panic"}) => UNCHANGED gvars]_avars
 Inv == WF /\ Compact
+\* stamps only matter through their relative order: the model checker identifies states up to it
+MCView == <<nd, [i \in DOMAIN ed |-> <<ed[i].s, ed[i].t, ed[i].w, Cardinality({j \in DOMAIN ed : ed[j].k < ed[i].k})>>], dir, maxix, ret, pending>>
 ============================================================================
